@@ -204,6 +204,45 @@ def t_roundtrip(v0: int, v1: int, v2: int, v3: int, v4: int, v5: int):
     assert f1 == ''
 
 
+def h_range_time(v0: int, v1: int, v2: int, v3: int, v4: int, v5: int):
+    """region of known finding F19 (a date-RANGE pattern followed by a T part): what does hold there.
+    Parsing assigns every group; formatting keeps the date-range part intact and is idempotent; only the T part is lost
+    (for the week-of-month-weekday pattern + part of day: month and week of month are lost instead)."""
+    assert LO[0] <= v0 <= HI[0] and LO[1] <= v1 <= HI[1] and LO[2] <= v2 <= HI[2]
+    assert LO[3] <= v3 <= HI[3] and LO[4] <= v4 <= HI[4] and LO[5] <= v5 <= HI[5]
+    assert KIND == 'datetime'
+    digits.reset()
+    vals = [v0, v1, v2, v3, v4, v5]
+    s, exp = build(vals)
+    t1 = Timex(s)
+    for f in FIELDS:
+        got = getattr(t1, f)
+        if f in exp and f != 'weekend':
+            assert eqv(got, exp[f]), (f, s)
+        elif f == 'weekend':
+            assert got is ('weekend' in exp), (f, s)
+        elif f == 'now':
+            assert got is False
+        elif f in ('minute', 'second') and 'hour' in exp:
+            assert got == 0
+        else:
+            assert got is None, (f, s)
+    f1 = t1.timex_value()
+    date_part, _, time_part = s.partition('T')
+    if 'part_of_day' in exp and 'day_of_week' in exp:
+        want = 'XXXX-WXX-' + date_part[-1] + 'T' + time_part
+    else:
+        want = date_part
+    assert digits.same(digits.decode(f1), digits.decode(want)), (s, f1)
+    t2 = Timex(f1)
+    assert digits.same(digits.decode(t2.timex_value()), digits.decode(f1))
+    a, b = snapshot(t1), snapshot(t2)
+    lost = ('month', 'week_of_month') if ('part_of_day' in exp and 'day_of_week' in exp) else ('hour', 'minute', 'second', 'part_of_day')
+    for i in range(len(FIELDS)):
+        if FIELDS[i] not in lost:
+            assert eqv(a[i], b[i]), (FIELDS[i], s, f1)
+
+
 def h_zero_amount(v0: int, v1: int):
     """known-finding region F7b: a zero duration amount formats to '' (which does not parse back)"""
     assert v0 == 0 and v1 == 0
